@@ -74,7 +74,19 @@ def const_int(t):
     if t[0] != 'const':
         return None
     m = re.match(r'^(?:const )?(-?\d+)(?:_[iu](?:8|16|32|64|128|size))?$', t[2].strip())
-    return int(m.group(1)) if m else None
+    if m:
+        return int(m.group(1))
+    if len(t) > 4 and t[4]:
+        # a named constant of integer type, evaluated by rustc: `Scalar(0x00000010)`
+        m = re.match(r'^Scalar\(0x([0-9a-fA-F]+)\)$', str(t[4]).strip())
+        if m and re.match(r'^[iu](8|16|32|64|128|size)$', str(t[1])):
+            v = int(m.group(1), 16)
+            if str(t[1]).startswith('i'):
+                bits = 4 * len(m.group(1))
+                if v >= 1 << (bits - 1):
+                    v -= 1 << bits
+            return v
+    return None
 
 
 class Prov:
